@@ -75,6 +75,9 @@ ALPHABET_EXT = ALPHABET + [" ", "\t", "\x0b", "\x0c", "\xa0", "\ud83d", "\ude00"
 INSERTIONS = [
     ("space", " "), ("tab", "\t"), ("comma", ","), ("lf", "\n"), ("cr", "\r"), ("crlf", "\r\n"),
     ("bom", "\ufeff"), ("comment", "#comment\n"), ("comment-unicode", "#é \U0001f600\r"),
+    # sequences of several ignored tokens (the lexer links consecutive comments into the token list, and the
+    # parser looks ahead across them after a description and after `extend`)
+    ("two-comments", "\n# one\n# two\n"), ("comments-mixed", "#a\r,#b\r\n\ufeff\t#\n#c\n"),
 ]
 
 
